@@ -562,7 +562,7 @@ def pure_rejection(recipe, live, op, exc_name):
         F = zoo.fresh_model(recipe, zoo.model_state(live.model, recipe))
         F.eval()
         F.likelihood.eval()
-        r = driver.predict(F, driver.test_args(recipe, op), dict(op, grad=False), op.get("lik", False))
+        r = driver.predict(F, driver.test_args(recipe, op), op, op.get("lik", False))  # same autograd mode as the live call
         return r[0] == "exc" and r[1] == exc_name
     except Exception:  # noqa
         return False
